@@ -3,8 +3,9 @@
 -/
 import HctlProofs.Lemmas.Corollaries
 import HctlModel.Api
+import HctlProofs.Lemmas.EntryPoints
 namespace Hctl.C15
-open Hctl
+open Hctl Kripke
 
 /-- two graphs that differ in the number of spare variable sets only -/
 structure SameButK (G G' : Graph) : Prop where
@@ -74,5 +75,78 @@ theorem sanitize_eq_raw {E : Env} (hE : EnvOK E) (hG : GraphWF E.G) (t : Tree)
   have hs := sat_congr E.G noCtx ctxSC_noCtx E.G.k t 0 s c (List.replicate E.G.k 0) v hw hl hl'
     (fun j hj => absurd hj (Nat.not_lt_zero j))
   exact Bool.eq_iff_iff.mpr (h1.trans ((and_congr Iff.rfl hs).trans h2.symm))
+
+/-- GENERAL FORM (any evaluator, plain or extended, cached or not): a set that is semantically exact for a closed
+formula in a context of variable-independent sets does not depend on the spare variables; sanitising succeeds and
+returns the raw set read at any valuation. -/
+theorem sanitize_of_sem {E : Env} (hE : EnvOK E) (hG : GraphWF E.G) (K : SemCtx) (hSC : CtxSC K) (t : Tree)
+    (hw : WellScoped E.G.k 0 t) (r : CSet) (hr : Sem E r E.G.unit0 (sat E.G K t)) :
+    Api.dependsOnSpare E r = false ∧
+    ∃ f, Api.sanitize E r = some f ∧ ∀ s c v, (⟨s, c, v⟩ : Point) ∈ E.pts → f s c = r ⟨s, c, v⟩ := by
+  have hU := unitOK_unit0 E
+  have key : ∀ p q : Point, p ∈ E.pts → q ∈ E.pts → p.s = q.s → p.c = q.c → r p = r q := by
+    intro p q hp hq hs hc
+    obtain ⟨s, c, v⟩ := p
+    obtain ⟨s', c', v'⟩ := q
+    simp only at hs hc
+    subst hs hc
+    have hl : E.G.k ≤ v.length := by have := len_v hE hG hp; simp at this; omega
+    have hl' : E.G.k ≤ v'.length := by have := len_v hE hG hq; simp at this; omega
+    have hs := sat_congr E.G K hSC E.G.k t 0 s c v v' hw hl hl' (fun j hj => absurd hj (Nat.not_lt_zero j))
+    have hu : E.G.unit0 ⟨s, c, v⟩ = E.G.unit0 ⟨s, c, v'⟩ := by simp [Graph.unit0]
+    apply Bool.eq_iff_iff.mpr
+    rw [hr _ hp, hr _ hq, hu]
+    exact and_congr Iff.rfl hs
+  have hdep : Api.dependsOnSpare E r = false := by
+    apply Bool.eq_false_iff.mpr
+    intro h
+    simp only [Api.dependsOnSpare, List.any_eq_true, List.mem_range] at h
+    obtain ⟨p, hpm, i, _, x, hx, hne⟩ := h
+    have := key p (p.setV i x) hpm (setV_mem' hE hG hpm hx) rfl rfl
+    simp [this] at hne
+  refine ⟨hdep, fun s c => r ⟨s, c, List.replicate E.G.k 0⟩, by simp [Api.sanitize, hdep], ?_⟩
+  intro s c v hmem
+  have hz : (⟨s, c, List.replicate E.G.k 0⟩ : Point) ∈ E.pts := by
+    rw [hE.pts_eq] at hmem ⊢
+    rw [mem_points] at hmem ⊢
+    refine ⟨hmem.1, hmem.2.1, by simp, ?_⟩
+    intro x hx
+    simp [List.mem_replicate] at hx
+    rw [hx.2]; exact Nat.lt_of_le_of_lt (Nat.zero_le _) hmem.1
+  exact key _ _ hz hmem rfl rfl
+
+/-- END TO END: every set the plain string entry point returns can be sanitised, and the sanitised set is the raw one -/
+theorem formulaeDirty_sanitisable {C : CharClass} (hC : Lex.CharsOK C) {E : Env} (hE : EnvOK E) (hG : GraphWF E.G)
+    (hA : C12.GraphAsync E.G) (fs : List (List Char)) (rs : List CSet)
+    (h : Api.formulaeDirty E C E.G.unit0 fs = .ok rs) :
+    ∀ r ∈ rs, ∃ f, Api.sanitize E r = some f ∧ ∀ s c v, (⟨s, c, v⟩ : Point) ∈ E.pts → f s c = r ⟨s, c, v⟩ := by
+  rcases formulaeDirty_correct hC hE hG hA fs with ⟨e, _, he⟩ | ⟨trees, ps, ds, rs', hp, hrs, hlen, hall⟩
+  · rw [he] at h; cases h
+  · rw [hrs] at h
+    simp only [Outcome.ok.injEq] at h
+    subst h
+    intro r hr
+    obtain ⟨i, hi, rfl⟩ := List.getElem_of_mem hr
+    have hi' : i < trees.length := by omega
+    have hq := parseAll_goodQ hC E fs trees ps ds hp trees[i] (List.getElem_mem hi')
+    exact (sanitize_of_sem hE hG noCtx ctxSC_noCtx trees[i] hq.wscoped rs'[i] (fun p hpp => hall i hi' hi p hpp)).2
+
+/-- GENERAL FORM of `k_irrelevant`: two semantically exact results for the same closed formula on graphs that differ
+in the number of spare variable sets only coincide as (state, colour) sets -/
+theorem k_irrelevant_sem {E E' : Env} (hE : EnvOK E) (hG : GraphWF E.G) (hE' : EnvOK E') (hG' : GraphWF E'.G)
+    (hsame : SameButK E.G E'.G) (K : SemCtx) (hSC : CtxSC K) (k0 : Nat) (hk : k0 ≤ E.G.k) (hk' : k0 ≤ E'.G.k)
+    (t : Tree) (hw : WellScoped k0 0 t) (r r' : CSet) (hr : Sem E r E.G.unit0 (sat E.G K t))
+    (hr' : Sem E' r' E'.G.unit0 (sat E'.G K t))
+    (s c : Nat) (v v' : List Nat) (hmem : (⟨s, c, v⟩ : Point) ∈ E.pts) (hmem' : (⟨s, c, v'⟩ : Point) ∈ E'.pts) :
+    r ⟨s, c, v⟩ = r' ⟨s, c, v'⟩ := by
+  have hl : k0 ≤ v.length := by have := len_v hE hG hmem; simp at this; omega
+  have hl' : k0 ≤ v'.length := by have := len_v hE' hG' hmem'; simp at this; omega
+  have hg : sat E.G K t ⟨s, c, v⟩ ↔ sat E'.G K t ⟨s, c, v⟩ :=
+    sat_graph_congr K t ⟨s, c, v⟩ ⟨hsame.nV, hsame.nS, fun j s' => by rw [hsame.step], hsame.label⟩
+  have hv := sat_congr E'.G K hSC k0 t 0 s c v v' hw hl hl' (fun i hi => absurd hi (Nat.not_lt_zero i))
+  have hu : E.G.unit0 ⟨s, c, v⟩ = E'.G.unit0 ⟨s, c, v'⟩ := by simp [Graph.unit0, hsame.valid]
+  apply Bool.eq_iff_iff.mpr
+  rw [hr _ hmem, hr' _ hmem', hu]
+  exact and_congr Iff.rfl (hg.trans hv)
 
 end Hctl.C15
